@@ -9,6 +9,7 @@ structure ConsState where
   c : Circ OState CState
   all : All
   partialCfg : Bool := false     -- the stored config has no TimeKeeper (diagnostics then use the wall clock)
+  noFb : Bool := false           -- the circuit carries no rolling.FallbackStats: fallback events reach no rolling collector
   mono : Bool := true            -- the substitute clock has never been set back
   reads : List Int := []         -- times at which the counters were read so far (a read presents its time to every counter)
 
@@ -46,7 +47,8 @@ partial def runConsOps (n : Nat) (w : Int) (maxHealthy : Int) (st : ConsState) (
     let kvs := parseKVs toks.tail
     let realKvs := parseKVs (real.splitOn " ")
     let realEv := (parseEmits ((kvGet realKvs "ev").getD "-")).getD []
-    let hist' := realEv.foldl SpecC20.Hist.add hist
+    let keep (e : Emit) : Bool := !(st.noFb && (match e with | .fb _ _ _ => true | _ => false))
+    let hist' := (realEv.filter keep).foldl SpecC20.Hist.add hist
     let realOpen' := kvBool realKvs "open" realOpen
     let fmtEv (l : List Emit) := s!"ev={fmtList (l.map Emit.fmt) ";"}"
     match toks.head? with
@@ -55,7 +57,7 @@ partial def runConsOps (n : Nat) (w : Int) (maxHealthy : Int) (st : ConsState) (
       | none => runConsOps n w maxHealthy st hist realOpen rest (acc.push "bad-op\t-")
       | some op =>
         let (c', obs, res) := execute openerI closerI st.c op.ctx op.run op.fb
-        let all' := obs.emits.foldl All.onEmit st.all
+        let all' := (obs.emits.filter keep).foldl All.onEmit st.all
         runConsOps n w maxHealthy { st with c := c', all := all' } hist' realOpen' rest
           (acc.push (s!"res={res.fmt} {fmtEv obs.emits} open={fmtBool (isOpenEff c')}" ++ "\t-"))
     | some "open" | some "close" =>
@@ -117,6 +119,6 @@ def suiteConsumers (kvs : List (String × String)) (lines : List (String × Stri
   let all : All := { run := RunStats.new n dur (kvNat kvs "pn" 6) (kvInt kvs "pdur" 60000000000) (kvNat kvs "psize" 100),
                      fb := FbStats.new n dur, slo := { maxHealthy := kvInt kvs "slo" 250000000 } }
   let c : Circ OState CState := { cfg := parseCfg kvs {}, opener := .never, closer := .never }
-  (runConsOps n (tdiv dur n) (kvInt kvs "slo" 250000000) { c := c, all := all } {} false lines #[]).toList
+  (runConsOps n (tdiv dur n) (kvInt kvs "slo" 250000000) { c := c, all := all, noFb := kvGet kvs "coll" == some "run" } {} false lines #[]).toList
 
 end CM
